@@ -33,7 +33,7 @@ RT_STUB = [
     "payloads, pools, configuration files -> harness",
 ]
 RT_ASSUME = [
-    "pre-emption inside stdlib/trio/asyncio functions happens only at their lock/queue operations",
+    "pre-emption inside stdlib/trio/asyncio functions happens only at their lock/queue operations (and at every line of WeakSet.__iter__)",
     "a busy loop iteration costs a fixed virtual delta (CPU-cost model); timing oracles use a 50 ms tolerance",
     "single SIGINT only (double ^C excluded); no resource exhaustion",
     "a clean batch is evidence, not proof: seeded sampling of schedules and fault sequences",
